@@ -134,17 +134,25 @@ impl GenerationPass for AvailableValuePass {
         let mut visited = HashSet::new();
         #[cfg(rva_verif)]
         crate::verif_hooks::begin("available");
+        // Nodes that may start from "no values known" although they have
+        // predecessors (see below)
+        let mut roots: Vec<Rc<crate::cfg::CfgNode>> = Vec::new();
         while changed {
             changed = false;
             #[cfg(rva_verif)]
             crate::verif_hooks::sweep("available");
+            let mut waiting = None;
             for node in cfg.iter() {
                 // A node that has predecessors, none of which has been visited
                 // yet, has nothing to start from. Treating it as "no values
                 // known" lets that empty map travel around loops and come
                 // back, so that values grow and shrink forever. Wait until one
                 // of its predecessors has been visited instead.
-                if !node.prevs().is_empty() && !node.prevs().iter().any(|x| visited.contains(x)) {
+                if !node.prevs().is_empty()
+                    && !node.prevs().iter().any(|x| visited.contains(x))
+                    && !roots.iter().any(|x| Rc::ptr_eq(x, &node))
+                {
+                    waiting.get_or_insert(Rc::clone(&node));
                     continue;
                 }
 
@@ -264,6 +272,15 @@ impl GenerationPass for AvailableValuePass {
 
                 // Add node to visited
                 visited.insert(Rc::clone(&node));
+            }
+            // Loops that cannot be reached from anywhere else (dead code) never
+            // get a visited predecessor: once everything else has settled, let
+            // the first waiting node start from "no values known".
+            if !changed {
+                if let Some(node) = waiting {
+                    roots.push(node);
+                    changed = true;
+                }
             }
         }
         Ok(())
